@@ -10,7 +10,8 @@ MOD = "server/AcceptDispatch.tla"
 TMOD = "server/AcceptDispatchTrace.tla"
 SMOD = "server/AcceptDispatchStrict.tla"
 VARIANTS = ["IgnoreUnknownIdx", "UnlinkOnDeregister", "ResumeClearsBackoff", "IncBeforeSend", "NoClearOnLimit", "ResumeSkipsAcceptAll",
-            "BackoffNeverReregisters", "RoundRobinStuck", "ConnErrIsFatal", "WakeSkipsAcceptAll", "PauseKeepsRegistered"]
+            "BackoffNeverReregisters", "RoundRobinStuck", "ConnErrIsFatal", "WakeSkipsAcceptAll", "PauseKeepsRegistered",
+            "RejoinPausedNoAvail"]
 
 
 def read_cfg_constants(cfg):
